@@ -209,6 +209,8 @@ def main(argv):
     tier = C.tier_from_argv(argv)
 
     def gen_ops(rng, n):
+        if HUNG:
+            return []          # a run already failed to terminate: no point in searching further
         ops, dropped, hung = LP.prescreen(exe, [gen_run(rng).line() for _ in range(n)])
         bump('runs_dropped_nan_injection_not_replayable', dropped)
         HUNG.extend(hung)
